@@ -25,6 +25,21 @@ define_language! {
     }
 }
 
+define_language! {
+    pub enum Lc {
+        CVar(Slot) = "cvar",
+        CF2(Slot, Slot) = "cf2",
+        CF3(Slot, Slot, Slot) = "cf3",
+        CLam(Bind<AppliedId>) = "clam",
+        CLam2(Bind<Bind<AppliedId>>) = "clam2",
+        CLet(Bind<AppliedId>, AppliedId) = "clet",
+        CLte(AppliedId, Bind<AppliedId>) = "clte",
+        CLtx(AppliedId, Bind<AppliedId>, AppliedId) = "cltx",
+        CApp(AppliedId, AppliedId) = "capp",
+        CNum(u32),
+    }
+}
+
 #[derive(Default)]
 pub struct MinSize;
 impl Analysis<Lb> for MinSize {
